@@ -503,10 +503,19 @@ compare(const struct prog *ref, const struct prog *p, const char *mode, const ch
         }
 }
 
+#define NSESS 12000
+static int
+cmp_u32(const void *a, const void *b)
+{
+        uint32_t x = *(const uint32_t *) a, y = *(const uint32_t *) b;
+        return x < y ? -1 : x > y;
+}
 struct targ {
         struct prog *p;
         pthread_barrier_t *bar;
         uint64_t seed;
+        uint32_t *ids; /* session ids handed out by imb_set_session() during the contention phase */
+        int nids;
 };
 static void *
 thread_main(void *a)
@@ -519,6 +528,22 @@ thread_main(void *a)
         in_thread_mode = 1;
         pthread_barrier_wait(t->bar);
         prog_step(t->p); /* allocate + initialise (self-test included) concurrently */
+        pthread_barrier_wait(t->bar);
+        /* contention phase on the one piece of state all managers share by design, the atomic session counter: every
+         * thread opens NSESS sessions of the same suite back to back; the ids are checked for uniqueness afterwards */
+        if (t->ids && t->p->mm) {
+                static __thread IMB_JOB sj;
+                memset(&sj, 0, sizeof sj);
+                sj.cipher_mode = IMB_CIPHER_CBC;
+                sj.cipher_direction = IMB_DIR_ENCRYPT;
+                sj.hash_alg = IMB_AUTH_HMAC_SHA_1;
+                sj.chain_order = IMB_ORDER_CIPHER_HASH;
+                sj.key_len_in_bytes = 16;
+                IMB_MGR *m = t->p->mm->m;
+                for (int i = 0; i < NSESS; i++)
+                        t->ids[i] = imb_set_session(m, &sj);
+                t->nids = NSESS;
+        }
         pthread_barrier_wait(t->bar);
         while (prog_step(t->p)) {
                 uint32_t k = rng_below(&r, 32);
@@ -736,6 +761,9 @@ eng_threads(void)
                                 ta[i].p = &thr[i];
                                 ta[i].bar = &bar;
                                 ta[i].seed = rng_u64(&r);
+                                static uint32_t idbuf[MAXP][NSESS];
+                                ta[i].ids = rep == 0 ? idbuf[i] : NULL;
+                                ta[i].nids = 0;
                                 if (pthread_create(&th[i], NULL, thread_main, &ta[i]))
                                         harness_fail("pthread_create failed");
                         }
@@ -744,6 +772,29 @@ eng_threads(void)
                         pthread_barrier_destroy(&bar);
                         for (int i = 0; i < np; i++)
                                 compare(&solo[i], &thr[i], "threads", combo);
+                        if (rep == 0) {
+                                /* session ids: zero is the error value, and no id may be handed out twice */
+                                static uint32_t all[MAXP * NSESS];
+                                int na = 0;
+                                for (int i = 0; i < np; i++)
+                                        for (int k = 0; k < ta[i].nids; k++)
+                                                all[na++] = ta[i].ids[k];
+                                qsort(all, (size_t) na, sizeof all[0], cmp_u32);
+                                int dups = 0, zeros = 0;
+                                for (int k = 0; k < na; k++) {
+                                        zeros += all[k] == 0;
+                                        dups += k > 0 && all[k] == all[k - 1];
+                                }
+                                cov_count("session_ids_checked", (uint64_t) na);
+                                if (dups || zeros) {
+                                        char det[300];
+                                        snprintf(det, sizeof det,
+                                                 "%d threads opened %d sessions each concurrently on their own managers (%s): %d of %d ids were handed out "
+                                                 "more than once, %d were 0",
+                                                 np, NSESS, combo, dups, na, zeros);
+                                        ev_violation("C17", "C17|threads|imb_set_session|duplicate-session-id", det, NULL);
+                                }
+                        }
                         ncmp += (uint64_t) np;
                         for (int i = 0; i < np; i++)
                                 cov_count("trace_records_compared", (uint64_t) solo[i].nops);
